@@ -237,53 +237,55 @@ class Component( ComponentLevel7 ):
     parent.add_connections( *connection_pairs )
 
     # Now we put back the provided upblk metadata to parent and top
-    for blk, obj_name in provided_upblk_reads:
-      parent._dsl.upblk_reads[blk].add( eval(obj_name) )
+    for host, blk, obj_name in provided_upblk_reads:
+      host._dsl.upblk_reads[blk].add( eval(obj_name) )
 
-    for blk, obj_name in provided_upblk_writes:
+    for host, blk, obj_name in provided_upblk_writes:
       written = eval(obj_name)
-      parent._dsl.upblk_writes[blk].add( written )
+      host._dsl.upblk_writes[blk].add( written )
       # A signal of the new component that an update_ff block writes is a register
-      if blk in parent._dsl.update_ff:
+      if blk in host._dsl.update_ff:
         written._dsl.needs_double_buffer = True
 
-    for blk, obj_name in provided_upblk_calls:
-      parent._dsl.upblk_calls[blk].add( eval(obj_name) )
+    for host, blk, obj_name in provided_upblk_calls:
+      host._dsl.upblk_calls[blk].add( eval(obj_name) )
       top._dsl.all_upblk_calls[blk].add( eval(obj_name) )
 
     # Put the parent's explicit constraints back on the ports of the new component
     for cons in provided_constraints:
+      host = cons[1] # the component that declared the constraint
       if cons[0] == 'U':
         blks = []
-        for b in cons[1:]:
+        for b in cons[2:]:
           if isinstance( b, tuple ): # ( component name, block name )
             b = eval( b[0] )._dsl.name_upblk.get( b[1] )
           blks.append( b )
         if None not in blks:
-          parent._dsl.U_U_constraints.add( tuple(blks) )
+          host._dsl.U_U_constraints.add( tuple(blks) )
           top._dsl.all_U_U_constraints.add( tuple(blks) )
       elif cons[0] == 'M':
-        _, x, y, is_equal = cons
-        x = eval(x) if isinstance( x, str ) else x
-        y = eval(y) if isinstance( y, str ) else y
-        parent._dsl.M_constraints.add( (x, y, is_equal) )
-        top._dsl.all_M_constraints.add( (x, y, is_equal) )
+        _, _, x, y, is_equal = cons
+        x = eval(x) if isinstance( x, str ) else eval( x[0] )._dsl.name_upblk.get( x[1] ) if isinstance( x, tuple ) else x
+        y = eval(y) if isinstance( y, str ) else eval( y[0] )._dsl.name_upblk.get( y[1] ) if isinstance( y, tuple ) else y
+        if x is not None and y is not None:
+          host._dsl.M_constraints.add( (x, y, is_equal) )
+          top._dsl.all_M_constraints.add( (x, y, is_equal) )
       else:
-        kind, var_name, var_cons = cons
+        kind, _, var_name, var_cons = cons
         var = eval(var_name)
-        local, glob = ( parent._dsl.RD_U_constraints, top._dsl.all_RD_U_constraints ) if kind == 'RD' else \
-                      ( parent._dsl.WR_U_constraints, top._dsl.all_WR_U_constraints )
+        local, glob = ( host._dsl.RD_U_constraints, top._dsl.all_RD_U_constraints ) if kind == 'RD' else \
+                      ( host._dsl.WR_U_constraints, top._dsl.all_WR_U_constraints )
         local[var] |= var_cons
         glob[var]  |= var_cons
 
-    for func, obj_name in provided_func_reads:
-      parent._dsl.func_reads[func].add( eval(obj_name) )
+    for host, func, obj_name in provided_func_reads:
+      host._dsl.func_reads[func].add( eval(obj_name) )
 
-    for func, obj_name in provided_func_writes:
-      parent._dsl.func_writes[func].add( eval(obj_name) )
+    for host, func, obj_name in provided_func_writes:
+      host._dsl.func_writes[func].add( eval(obj_name) )
 
-    for func, obj_name in provided_func_calls:
-      parent._dsl.func_calls[func].add( eval(obj_name) )
+    for host, func, obj_name in provided_func_calls:
+      host._dsl.func_calls[func].add( eval(obj_name) )
 
     # Slices/fields of the new component's ports are created lazily by the
     # evals above; register them like the ones created during construction
@@ -372,97 +374,109 @@ class Component( ComponentLevel7 ):
       # If an update block/function in parent writes the inport or reads
       # the outport or calls a callee method of the deleted component, we
       # must save the information (upA reads B) to avoid bugs or
-      # explicitly re-elaborating the parent.
-
-      for blk, reads in parent._dsl.upblk_reads.items():
-        assert blk in top._dsl.all_upblk_reads
-        to_save = set()
-        for x in reads:
-          if x in removed_connectables:
-            to_save.add( x )
-            saved_upblk_reads.append( (blk, repr(x)) )
-        parent._dsl.upblk_reads[blk] -= to_save
-
-      for blk, writes in parent._dsl.upblk_writes.items():
-        assert blk in top._dsl.all_upblk_writes
-        to_save = set()
-        for x in writes:
-          if x in removed_connectables:
-            to_save.add( x )
-            saved_upblk_writes.append( (blk, repr(x)) )
-        parent._dsl.upblk_writes[blk] -= to_save
+      # explicitly re-elaborating the parent. The same holds for every
+      # component further up: a block of the grandparent may read a port
+      # of the deleted component or constrain one of its blocks.
 
       # A CL/FL interface of the removed component may be called as a whole
       removed_callees = removed_connectables | foo._collect_all_single( lambda x: isinstance( x, Interface ) )
 
-      for blk, calls in parent._dsl.upblk_calls.items():
-        assert blk in top._dsl.all_upblk_calls
-        to_save = set()
-        for x in calls:
-          if x in removed_callees:
-            to_save.add( x )
-            saved_upblk_calls.append( (blk, repr(x)) )
-        parent._dsl.upblk_calls[blk] -= to_save
-        top._dsl.all_upblk_calls[blk] -= to_save
-
-      # We need to save the information for funcs too
-      for func, reads in parent._dsl.func_reads.items():
-        to_save = set()
-        for x in reads:
-          if x in removed_connectables:
-            to_save.add( x )
-            saved_func_reads.append( (func, repr(x)) )
-        parent._dsl.func_reads[func] -= to_save
-
-      for func, writes in parent._dsl.func_writes.items():
-        to_save = set()
-        for x in writes:
-          if x in removed_connectables:
-            to_save.add( x )
-            saved_func_writes.append( (func, repr(x)) )
-        parent._dsl.func_writes[func] -= to_save
-
-      for func, calls in parent._dsl.func_calls.items():
-        to_save = set()
-        for x in calls:
-          if x in removed_callees:
-            to_save.add( x )
-            saved_func_calls.append( (func, repr(x)) )
-        parent._dsl.func_calls[func] -= to_save
-
-      # Explicit constraints the parent declared on ports / methods of the
-      # removed component: RD(s.c.out) < U(blk), M(s.c.recv) < U(blk), ...
-      saved_constraints = []
-      for kind, local, glob in ( ( 'RD', parent._dsl.RD_U_constraints, top._dsl.all_RD_U_constraints ),
-                                 ( 'WR', parent._dsl.WR_U_constraints, top._dsl.all_WR_U_constraints ) ):
-        for var in [ v for v in local if v in removed_connectables ]:
-          cons = local.pop( var )
-          if var in glob:
-            glob[var] -= cons
-            if not glob[var]:
-              del glob[var]
-          saved_constraints.append( ( kind, "top"+repr(var)[1:], cons ) )
-
-      # U(s.c.get_update_block('up')) < U(blk): the parent ordered a block of
-      # the removed component; the block of that name of the new component
-      # takes its place
       removed_blks = {}
       for c in removed_components:
         for blk in c._dsl.upblks:
           removed_blks[ blk ] = ( "top"+repr(c)[1:], blk.__name__ )
-      for (x, y) in list( parent._dsl.U_U_constraints ):
-        if x in removed_blks or y in removed_blks:
-          parent._dsl.U_U_constraints.discard( (x, y) )
-          top._dsl.all_U_U_constraints.discard( (x, y) )
-          saved_constraints.append( ( 'U', removed_blks.get( x, x ), removed_blks.get( y, y ) ) )
 
-      if hasattr( parent._dsl, 'M_constraints' ):
-        for (x, y, is_equal) in list( parent._dsl.M_constraints ):
-          if x in removed_callees or y in removed_callees:
-            parent._dsl.M_constraints.discard( (x, y, is_equal) )
-            top._dsl.all_M_constraints.discard( (x, y, is_equal) )
-            saved_constraints.append( ( 'M', "top"+repr(x)[1:] if x in removed_callees else x,
-                                             "top"+repr(y)[1:] if y in removed_callees else y, is_equal ) )
+      saved_constraints = []
+
+      host = parent
+      while host is not None:
+        hd = host._dsl
+
+        for blk, reads in hd.upblk_reads.items():
+          assert blk in top._dsl.all_upblk_reads
+          to_save = set()
+          for x in reads:
+            if x in removed_connectables:
+              to_save.add( x )
+              saved_upblk_reads.append( (host, blk, repr(x)) )
+          hd.upblk_reads[blk] -= to_save
+
+        for blk, writes in hd.upblk_writes.items():
+          assert blk in top._dsl.all_upblk_writes
+          to_save = set()
+          for x in writes:
+            if x in removed_connectables:
+              to_save.add( x )
+              saved_upblk_writes.append( (host, blk, repr(x)) )
+          hd.upblk_writes[blk] -= to_save
+
+        for blk, calls in hd.upblk_calls.items():
+          assert blk in top._dsl.all_upblk_calls
+          to_save = set()
+          for x in calls:
+            if x in removed_callees:
+              to_save.add( x )
+              saved_upblk_calls.append( (host, blk, repr(x)) )
+          hd.upblk_calls[blk] -= to_save
+          top._dsl.all_upblk_calls[blk] -= to_save
+
+        # We need to save the information for funcs too
+        for func, reads in hd.func_reads.items():
+          to_save = set()
+          for x in reads:
+            if x in removed_connectables:
+              to_save.add( x )
+              saved_func_reads.append( (host, func, repr(x)) )
+          hd.func_reads[func] -= to_save
+
+        for func, writes in hd.func_writes.items():
+          to_save = set()
+          for x in writes:
+            if x in removed_connectables:
+              to_save.add( x )
+              saved_func_writes.append( (host, func, repr(x)) )
+          hd.func_writes[func] -= to_save
+
+        for func, calls in hd.func_calls.items():
+          to_save = set()
+          for x in calls:
+            if x in removed_callees:
+              to_save.add( x )
+              saved_func_calls.append( (host, func, repr(x)) )
+          hd.func_calls[func] -= to_save
+
+        # Explicit constraints declared on ports / methods of the removed
+        # component: RD(s.c.out) < U(blk), M(s.c.recv) < U(blk), ...
+        for kind, local, glob in ( ( 'RD', hd.RD_U_constraints, top._dsl.all_RD_U_constraints ),
+                                   ( 'WR', hd.WR_U_constraints, top._dsl.all_WR_U_constraints ) ):
+          for var in [ v for v in local if v in removed_connectables ]:
+            cons = local.pop( var )
+            if var in glob:
+              glob[var] -= cons
+              if not glob[var]:
+                del glob[var]
+            saved_constraints.append( ( kind, host, "top"+repr(var)[1:], cons ) )
+
+        # U(s.c.get_update_block('up')) < U(blk): a block of the removed
+        # component was ordered; the block of that name of the new
+        # component takes its place
+        for (x, y) in list( hd.U_U_constraints ):
+          if x in removed_blks or y in removed_blks:
+            hd.U_U_constraints.discard( (x, y) )
+            top._dsl.all_U_U_constraints.discard( (x, y) )
+            saved_constraints.append( ( 'U', host, removed_blks.get( x, x ), removed_blks.get( y, y ) ) )
+
+        if hasattr( hd, 'M_constraints' ):
+          for (x, y, is_equal) in list( hd.M_constraints ):
+            if x in removed_callees or y in removed_callees or x in removed_blks or y in removed_blks:
+              hd.M_constraints.discard( (x, y, is_equal) )
+              top._dsl.all_M_constraints.discard( (x, y, is_equal) )
+              # a method is saved by name, a block by ( component name, block name )
+              saved_constraints.append( ( 'M', host,
+                "top"+repr(x)[1:] if x in removed_callees else removed_blks.get( x, x ),
+                "top"+repr(y)[1:] if y in removed_callees else removed_blks.get( y, y ), is_equal ) )
+
+        host = host.get_parent_object()
 
       saved_connections = []
       saved_loopbacks   = set()
